@@ -277,6 +277,22 @@ impl Vm {
             }
           }
         },
+        // an exported instance (stdin, stdout, stderr): the methods of its class with the symbol as receiver
+        ObjectKind::Instance => {
+          let class = obj.to_instance().class();
+          for (mname, method) in class.verif_methods() {
+            if method.is_obj() && method.to_obj().is_kind(ObjectKind::Native) {
+              let native = method.to_obj().to_native();
+              out.push(format!(
+                "{{\"module\":{},\"owner\":{},\"instance\":true,\"name\":{},\"static\":false,\"sig\":{}}}",
+                import_json,
+                core_verif::json_str(&name),
+                core_verif::json_str(&mname),
+                native.verif_signature_json()
+              ));
+            }
+          }
+        },
         _ => (),
       }
     }
